@@ -92,8 +92,13 @@ def is_const(t):
 
 
 class Deep:
-    def __init__(self, F, root, max_paths=3000, max_depth=6, inline=True, opaque=None, inline_only=None, stop_at=()):
+    def __init__(self, F, root, max_paths=3000, max_depth=6, inline=True, opaque=None, inline_only=None, stop_at=(), prune=None):
         self.stop_at = frozenset(stop_at)
+        # prune: None, or a regex of "interesting" opaque callees.  With pruning, a frame is left as soon as no write
+        # through a reference, no interesting call and no inlinable callee containing such is reachable any more: what
+        # follows (formatting, logging ..) cannot change the recorded writes and is not explored (value: ("pruned", n)).
+        self.prune = re.compile(prune) if isinstance(prune, str) and prune else (True if prune is not None else None)
+        self._live_cache = {}
         self.F, self.root = F, root
         self.max_paths, self.max_depth, self.inline = max_paths, max_depth, inline
         self.opaque = re.compile(opaque) if opaque else None
@@ -314,6 +319,12 @@ class Deep:
     def _exec(self, fr, bb, st, seen, k):
         body = fr.body
         while True:
+            if self.prune is not None and not getattr(fr, "noprune", False) and bb not in self._live(body):
+                if fr.fid == 0:
+                    self._finish(st, ("pruned", 0))
+                else:
+                    k(st, ("pruned", self.fresh()))
+                return
             if fr.fid == 0 and bb in self.stop_at and seen:
                 self._finish(st, ("reached", bb))
                 return
@@ -357,6 +368,48 @@ class Deep:
                 continue
             # unreachable / resume / other: path ends without a value
             return
+
+    def _live(self, body, _stack=()):
+        """Blocks of `body` from which something worth recording is still reachable (see `prune`)."""
+        if body.key in self._live_cache:
+            return self._live_cache[body.key]
+        if body.key in _stack:
+            return set(body.live_blocks)
+        hot = set()
+        for bb in body.live_blocks:
+            blk = body.blocks[bb]
+            if any("*" in st["pl"]["p"] for st in blk["stmts"] if "pl" in st):
+                hot.add(bb)
+                continue
+            t = blk["term"]
+            if t["k"] == "call":
+                f = op_fn(t["func"])
+                if f is None:
+                    continue
+                path = f["path"]
+                if self.prune is not True and self.prune.search(path):
+                    hot.add(bb)
+                    continue
+                cb = self.F.callee_body(t, body.crate) if f.get("local") else None
+                if cb is not None and not cb.is_coroutine and (self.inline_only is None or self.inline_only(cb)) and \
+                        not (self.opaque and self.opaque.search(path)) and self._live(cb, _stack + (body.key,)):
+                    hot.add(bb)
+                elif any(isinstance(a, dict) and a.get("k") in ("copy", "move") for a in t["args"]) and COMB.match(path):
+                    # a combinator that may invoke a closure defined here which writes through a capture
+                    for nb in self.F.children.get(body.key, []):
+                        if self._live(nb, _stack + (body.key,)):
+                            hot.add(bb)
+                            break
+        live = set(hot)
+        work = list(hot)
+        while work:
+            x = work.pop()
+            for y in body.pred[x]:
+                if y not in live:
+                    live.add(y)
+                    work.append(y)
+        self._live_cache[body.key] = live
+        return live
 
     def _outer(self, fr, place):
         """Is the place rooted in a local of an enclosing frame (written from an inlined callee)?"""
@@ -524,6 +577,12 @@ class Deep:
                 return h(fr, st, args, site, cont)
         cb = self.F.callee_body(t, body.crate) if f.get("local") else None
         if cb is not None and self._inlinable(fr, cb, path):
+            if self.prune is not None and not self._live(cb):
+                # nothing worth recording inside: small accessors of the event types are still evaluated (their value
+                # matters for later branching), anything else (formatting helpers ..) is left as an opaque call
+                if cb.name.startswith("event::") and len(cb.blocks) <= 40:
+                    return self._inline(fr, st, cb, args, site, cont, noprune=True)
+                return self._opaque(st, f.get("res") or path, args, site, cont, f)
             return self._inline(fr, st, cb, args, site, cont)
         if cb is None and re.search(r"::[A-Z]\w*$", re.sub(r"::<.*?>$", "", path)):
             v = self._ctor(path, args)
@@ -632,6 +691,8 @@ class Deep:
             cb = self.F.body(callee[1], fr.body.crate)
             if cb is not None and self.opaque and self.opaque.search(cb.name):
                 return self._opaque(st, "closure:" + cb.name, [self_arg if self_arg is not None else callee] + list(args), site, cont)
+            if cb is not None and self.prune is not None and not self._live(cb) and len(cb.blocks) > 40:
+                return self._opaque(st, "closure:" + cb.name, [self_arg if self_arg is not None else callee] + list(args), site, cont)
             if cb is not None and fr.depth < self.max_depth and cb.key not in fr.stack and not cb.is_coroutine:
                 want_ref = cb.locals[1].startswith("&")
                 if want_ref:
@@ -643,7 +704,7 @@ class Deep:
                         a0 = ("ref", cell)
                 else:
                     a0 = callee
-                return self._inline(fr, st, cb, [a0] + list(args), site, cont)
+                return self._inline(fr, st, cb, [a0] + list(args), site, cont, noprune=(self.prune is not None and not self._live(cb)))
         if callee[0] == "fn":
             path, res, local = callee[1], callee[2], callee[3]
             m = COMB.match(path)
@@ -653,6 +714,10 @@ class Deep:
                     return h(fr, st, list(args), site, cont)
             cb = (self.F.body(res, fr.body.crate) or self.F.body(path, fr.body.crate)) if local else None
             if cb is not None and self._inlinable(fr, cb, path):
+                if self.prune is not None and not self._live(cb):
+                    if cb.name.startswith("event::") and len(cb.blocks) <= 40:
+                        return self._inline(fr, st, cb, list(args), site, cont, noprune=True)
+                    return self._opaque(st, res or path, args, site, cont)
                 return self._inline(fr, st, cb, list(args), site, cont)
             v = self._ctor(path, args)
             if v is not None:
@@ -682,9 +747,10 @@ class Deep:
             return ("variant", plain, a["variants"][0]["name"], tuple(args))
         return None
 
-    def _inline(self, fr, st, cb, args, site, cont, self_is_state=False):
+    def _inline(self, fr, st, cb, args, site, cont, self_is_state=False, noprune=False):
         self.fid += 1
         nf = Frame(self.fid, cb, fr.depth + 1, fr.stack + (cb.key,))
+        nf.noprune = noprune or getattr(fr, "noprune", False)
         for i, a in enumerate(args):
             st.heap[("L", nf.fid, i + 1)] = a
         if cb.is_coroutine and not self_is_state:
